@@ -12,9 +12,9 @@ PROPS["C10"] = {
          "thorough": ["VP_C10_Sound_n6", "VP_C10_Sound_n7", "VP_C10_Sound_n8", "VP_C10_Genuine_n5",
                       "VP_C10_SoundSymTotal_n2", "VP_C10_SoundSymTotal_n3", "VP_C10_Sound2_n3"]},
         {"dir": "types",
-         "quick": ["VP_C10_AddPartSym_L2_s1", "VP_C10_AddPartSym_L3_s2", "VP_C10_AddPartTamper_L2_s1", "VP_C10_AddPartTamper_L3_s1",
+         "quick": ["VP_C10_AddPartSym_L2_s1", "VP_C10_AddPartSym_L3_s2", "VP_C10_AddPartSym_L3_s1", "VP_C10_AddPartTamper_L2_s1", "VP_C10_AddPartTamper_L3_s1",
                    "VP_C10_AddPartTamper_L4_s2", "VP_C10_Complete_L3_s1", "VP_C10_Complete_L5_s2", "VP_C10_Complete_L6_s4"],
-         "thorough": ["VP_C10_AddPartSym_L3_s1", "VP_C10_AddPartSym_L4_s1", "VP_C10_AddPartTamper_L5_s2", "VP_C10_AddPartTamper_L6_s4",
+         "thorough": ["VP_C10_AddPartSym_L4_s1", "VP_C10_AddPartTamper_L5_s2", "VP_C10_AddPartTamper_L6_s4",
                       "VP_C10_Complete_L6_s1"]},
     ],
     "bounds": {
@@ -33,8 +33,8 @@ PROPS["C07"] = {
     "groups": [
         {"dir": "types",
          "quick": ["VP_C07_Verify_n1", "VP_C07_Verify_n2", "VP_C07_Verify_n2_extra", "VP_C07_Trusting_n1_m1", "VP_C07_Trusting_n2_m1",
-                   "VP_C07_TrustLevelGuards", "VP_C07_SignBytesInjective_small"],
-         "thorough": ["VP_C07_Verify_n3", "VP_C07_Trusting_n2_m2", "VP_C07_Trusting_n3_m2", "VP_C07_SignBytesInjective_full"]},
+                   "VP_C07_TrustLevelGuards", "VP_C07_SignBytesInjective_small", "VP_C07_Repeat_n2_m2", "VP_C07_Repeat_n3_m2"],
+         "thorough": ["VP_C07_Verify_n3", "VP_C07_Repeat_n4_m3", "VP_C07_Trusting_n2_m2", "VP_C07_Trusting_n3_m2", "VP_C07_SignBytesInjective_full"]},
     ],
     "bounds": {
         "validators": "n = 1..2 (thorough 3) validators with fully symbolic 64-bit powers (1 <= p, sum <= MaxTotalVotingPower, so totals near 2^60 are inside); real ed25519 keys",
